@@ -73,6 +73,7 @@ def marker_name_scenarios(world: SqlWorld, stmts, loop_holder=None):
     uids = ["V1", "V2", "H"]
     names = {"V1": "x", "V2": "y", "H": "x"}
     for perm, lperm in itertools.product(itertools.permutations(uids), (("V1", "V2", "H"), ("H", "V2", "V1"))):
+        inner_by_order = {}
         for order in ("asc", "desc"):
             world.p.it.set_order = order
             # the column map may list hidden columns before visible ones as well (leaf columns first, then computed ones)
@@ -95,6 +96,7 @@ def marker_name_scenarios(world: SqlWorld, stmts, loop_holder=None):
             after = res["sqa_expr"]
             got = {u: (after[u].attrs["name"] if u in after and isinstance(after[u], Obj) else None) for u in uids}
             inner = [lb.attrs["name"] for lb in compiled[0]] if compiled else []
+            inner_by_order[order] = inner
             ok = got["V1"] == "x" and got["V2"] == "y" and got["H"] not in (None, "x", "y") and len(set(inner)) == len(inner) == 3
             out.append((f"needed_cols order {perm}, column map order {lperm}, set order {order}", ok,
                         f"needed-column order {list(perm)}, column map order {list(lperm)}: the subquery selects {inner}; after it the visible columns are labelled "
@@ -102,6 +104,11 @@ def marker_name_scenarios(world: SqlWorld, stmts, loop_holder=None):
             q = res["query"]
             if isinstance(q, Obj) and q.attrs.get("select") != ["V1", "V2"]:
                 out.append((f"needed_cols order {perm}: outer select", False, f"after the subquery the visible selection is {q.attrs.get('select')}, expected ['V1', 'V2']"))
+        # the text of the subquery must not depend on the iteration order of a set (identities are fresh uuids: hash order)
+        out.append((f"needed_cols order {perm}, column map order {lperm}: the subquery's select list does not depend on set iteration order",
+                    inner_by_order.get("asc") == inner_by_order.get("desc"),
+                    f"the subquery selects {inner_by_order.get('asc')} or {inner_by_order.get('desc')} depending on the iteration order of a set of column "
+                    "identities: the statement text differs from build to build"))  # fmt: skip
     return out
 
 
